@@ -3,9 +3,9 @@ import vlib
 from checks import compiled_common as CC
 from checks import C07
 
-UNITS = ['Opcodes', 'Codec', 'Verifier', 'JitLogic']
-MODELS = ['theories/Verifier.vo', 'gen/JitLogic.vo']
-PROOFS = ['theories/JitLogicProofs.v', 'theories/VerifierProofs.v', 'theories/InterpProofs.v']
+UNITS = ['Opcodes', 'Codec', 'Verifier', 'JitLogic', 'JitEnc']
+MODELS = ['theories/Verifier.vo', 'gen/JitLogic.vo', 'theories/X86Enc.vo', 'gen/JitEnc.vo']
+PROOFS = ['theories/JitLogicProofs.v', 'theories/JitEncProofs.v', 'theories/VerifierProofs.v', 'theories/InterpProofs.v']
 ENGINE = 'jit'
 
 
